@@ -45,7 +45,7 @@ def integ_refs(w, p):
 
 MACROS = dict(hold_script=scripts.hold_script, foreign_script=scripts.foreign_script,
               reset_script=scripts.reset_script, admin_script=scripts.admin_script,
-              events_script=scripts.events_script)
+              events_script=scripts.events_script, repeat_script=scripts.repeat_script)
 
 
 def run_step(w, st, res):
@@ -67,6 +67,10 @@ def run_step(w, st, res):
         return None
     if a == 'recover':
         return recover(w, st, res)
+    if a == 'fresh_compare':
+        return fresh_compare(w, st, res)
+    if a == 'event_equiv':
+        return event_equiv(w, st, res)
     if a == 'final_check':
         if st.get('expect') is not None:
             w.observe('check', chk=dict(kind='final', dt=dest_trees(w), ref=st['expect']))
@@ -228,6 +232,66 @@ def recover(w, st, res):
     # may legitimately be ahead of it (e.g. it evaluates the queue and merges an earlier pull request
     # whose queue build is already green).  "Ends with the same content" is therefore judged at the
     # end of the history (final_check), where both runs have delivered every event.
+    return r
+
+
+def event_equiv(w, st, res):
+    """C19: an event on an integration pull request, or a commit event on a source / w/ tip, is handled as
+    an event on the parent pull request: the variant is evaluated in a fresh OS process on a copy of the
+    world, the parent event on the long-lived instance; outcomes and effects must be equal."""
+    rid = w.pmap.get(st['p'], st['p'])
+    src = w.pr(rid).src_branch
+    variant = None
+    if st['via'] == 'child':
+        kids = [it.id for it in w.mock.PullRequest.items
+                if it.author['username'].lower() == ROBOT and it._state == 'OPEN' and
+                it.source['branch']['name'].endswith('/' + src) and it.source['branch']['name'].startswith('w/')]
+        if kids:
+            variant = dict(kind='EvalPR', arg=kids[-1])
+    else:
+        names = [n for n in sorted(w.refs()) if n == src or (classify(n)['kind'] == 'w' and classify(n)['src'] == src)]
+        if st['via'] == 'w_commit':
+            names = [n for n in names if n != src]
+        # only tips that identify this pull request alone
+        if names:
+            sha = w.tip(names[-1] if st['via'] == 'w_commit' else src)
+            owners = [it.id for it in w.mock.PullRequest.items if it.source['branch']['name'] == src and
+                      it.state == 'OPEN']
+            if sha and owners and min(owners) == rid and \
+                    len([n for n, s_ in w.refs().items() if s_ == sha and classify(n)['kind'] in ('q', 'qw')]) == 0 and \
+                    len({classify(n)['src'] or n for n, s_ in w.refs().items() if s_ == sha}) == 1:
+                variant = dict(kind='EvalCommit', arg=sha)
+    if variant is None:
+        return None
+    return fresh_compare(w, dict(p=st['p'], job=variant, kind='events'), res)
+
+
+def fresh_compare(w, st, res):
+    """C10(d): evaluate pull request p in a fresh OS process on a copy of the world, then on the
+    long-lived instance; both outcomes and effects go to the monitor (check kind `fresh`)."""
+    import subprocess
+    from . import freshproc
+    rid = w.pmap.get(st['p'], st['p'])
+    path = os.path.join(w.scratch, 'snap_%d.pickle' % w.k)
+    w.export_snapshot(path, st.get('job') or dict(kind='EvalPR', arg=rid))
+    env = dict(os.environ, PYTHONPATH=os.path.dirname(os.path.dirname(os.path.abspath(__file__))))
+    p = subprocess.run([sys.executable, '-W', 'ignore', '-m', 'harness.freshproc', path], stdout=subprocess.PIPE,
+                       stderr=subprocess.PIPE, universal_newlines=True, env=env,
+                       cwd=os.path.dirname(os.path.dirname(os.path.abspath(__file__))))
+    os.environ['HOME'] = w.home
+    os.environ['TMPDIR'] = w.scratch
+    line = [l for l in p.stdout.splitlines() if l.startswith('FRESHRESULT ')]
+    if not line:
+        raise RuntimeError('fresh process failed:\n' + p.stdout[-1500:] + p.stderr[-2500:])
+    fresh = json.loads(line[0][len('FRESHRESULT '):])
+    r = w.eval_pr(rid)
+    res.append(dict(step='eval_pr', p=st['p'], status=r['status']))
+    mine = dict(status=r['status'], effects=freshproc.effects(w, None))
+    same = fresh == mine
+    w.observe('check', chk=dict(kind=st.get('kind', 'fresh'), dt=[[json.dumps(mine, sort_keys=True)]] if not same else [],
+                                ref=[[json.dumps(fresh, sort_keys=True)]] if not same else []))
+    shutil.rmtree(os.path.join(w.scratch, 'bare_' + os.path.basename(path)), ignore_errors=True)
+    os.unlink(path)
     return r
 
 
